@@ -500,3 +500,7 @@ m('c03-r3-speed-skipped-in-forwarder-only', 'C03', 'C03-R3', 'osu:same-feeding',
 m('c02-r9-catcher-width-cap-one-replica', 'C02', 'C02-R9', 'catch:Movement::new:arg0', diff='selftest/seed_diffs/C02-8.diff')
 m('c03-r4-catcher-width-cap-misplaced', 'C03', 'C03-R4', 'catch:Movement::new:arg0', diff='selftest/seed_diffs/C03-8.diff')
 m('c18-r7-taiko-reads-lazer', 'C18', 'C18-R7', 'lazer:Taiko:unread', diff='selftest/seed_diffs/C18-8.diff')
+m('c12-r8-object-count-before-invert', 'C12', 'C12-R8', 'fresh-reads:mania:difficulty', diff='selftest/seed_diffs/C12-8.diff')
+m('c14-r8-object-count-before-invert', 'C14', 'C14-R8', 'fresh-reads:mania:difficulty', diff='selftest/seed_diffs/C12-8.diff')
+m('c16-r9-strains-rate-from-mods', 'C16', 'C16-R9', 'catch:DifficultyValues::calculate:arg2', diff='selftest/seed_diffs/C16-8.diff')
+m('c17-r7-od-accessor-clamped', 'C17', 'C17-R7', 'osu:od-accessor', diff='selftest/seed_diffs/C17-8.diff')
